@@ -15,6 +15,7 @@ CONSTANTS
  WithMemMerge = TRUE
  MaxMergeInputs = 2
  AsyncRelease = TRUE
+ MaxOpens = 2
 CONSTRAINT Bound
 INVARIANTS RootIsReplay UniqueLive HeldAreReplays EveryBoltIsAState Durable NewestLoads BoltFilesOnDisk RootFilesOnDisk NoOrphansWhenQuiescent RollbackOK
 PROPERTIES LayoutStutters ReaderStable
